@@ -21,6 +21,7 @@ from .. import terms as T
 from .. import fclass
 from ..order import NotParametric
 from ..ivl import IvlModel
+from ..sqrtdom import check_paths as check_sqrt_domain
 from ..meanci import ConfModel, KINDS, F0, F1, F2, NORMAL, crit, unwrap_ok, SubstPath, nonneg_crit
 from ..nf import Ctx as NF, NotReal
 from ..realmode import Domain, prune, quantile_hook
@@ -107,6 +108,7 @@ def producer(chk, facts, nf, im, cm, fn, method, label, sfx, subst=None, make_ar
                 sx, paths = summ(facts, fn, ['confidence', 'n', 'k'], [cm.value(kind, L), None, None])
                 subst2 = None
             chk.saw(facts, fn, paths=len(paths))
+            check_sqrt_domain(chk, key, where, paths, '%s(%s)' % (label, kname))
             if subst2:
                 paths = [SubstPath(p, subst2) for p in paths]
             feas = prune(paths, dom)
